@@ -198,9 +198,12 @@ theorem sameGroup_congr_right (k m x : RateTotal) (h : sameGroup m x = true) :
     rcases hks : k.surcharge with _ | ks <;> rcases hms : m.surcharge with _ | ms <;> rcases hxs : x.surcharge with _ | xs <;>
     simp_all [Bool.beq_eq_decide_eq]
 
-theorem sameGroup_absorb (k m x : RateTotal) : sameGroup k (m.absorb x) = sameGroup k m := by
-  unfold sameGroup samePercent sameSurchargePercent RateTotal.absorb
-  rcases hk : k.percent with _ | kp <;> rcases hm : m.percent with _ | mp <;>
+/-- absorbing a row of the same group keeps the group of the matched row (a
+    surcharge is only copied into an exempt row, whose group ignores it) -/
+theorem sameGroup_absorb (k m x : RateTotal) (h : sameGroup m x = true) :
+    sameGroup k (m.absorb x) = sameGroup k m := by
+  unfold sameGroup samePercent sameSurchargePercent RateTotal.absorb at *
+  rcases hk : k.percent with _ | kp <;> rcases hm : m.percent with _ | mp <;> rcases hx : x.percent with _ | xp <;>
     rcases hks : k.surcharge with _ | ks <;> rcases hms : m.surcharge with _ | ms <;> rcases hxs : x.surcharge with _ | xs <;>
     simp_all
 
@@ -230,8 +233,6 @@ theorem sub_same_exp (a b : Amount) (h : b.exp = a.exp) : a.sub b = ⟨a.value -
 /-- invariant of the rate rows while merging summaries of precision `e` -/
 def RInv (e : ℕ) (r : RateTotal) : Prop := uniformRate e r = true
 
-def RInvW (e : ℕ) (r : RateTotal) : Prop := uniformRate e r = true ∧ wellFormedRate r = true
-
 theorem uniformRate_iff (e : ℕ) (r : RateTotal) :
     uniformRate e r = true ↔ r.base.exp = e ∧ r.amount.exp = e ∧ ∀ s, r.surcharge = some s → s.amount.exp = e := by
   unfold uniformRate
@@ -250,22 +251,14 @@ theorem absorb_uniform (e : ℕ) (m x : RateTotal) (hm : RInv e m) (hx : RInv e 
   · rw [hxs] at hs; exact m3 s hs
   · rw [hxs] at hs
     rcases hms : m.surcharge with _ | ms
-    · rw [hms] at hs; simp at hs
+    · rw [hms] at hs
+      simp only [Option.some.injEq] at hs
+      subst hs
+      exact x3 xs hxs
     · rw [hms] at hs
       simp only [Option.some.injEq] at hs
       subst hs
       simp [Amount.add, m3 ms hms]
-
-theorem absorb_wf (m x : RateTotal) (hm : wellFormedRate m = true) : wellFormedRate (m.absorb x) = true := by
-  unfold wellFormedRate RateTotal.absorb at *
-  rcases hp : m.percent with _ | p
-  · rw [hp] at hm
-    simp only [Option.isSome_none, Bool.false_or, Option.isNone_iff_eq_none] at hm
-    rcases x.surcharge with _ | xs <;> simp [hm]
-  · simp
-
-theorem absorb_invW (e : ℕ) (m x : RateTotal) (hm : RInvW e m) (hx : RInvW e x) : RInvW e (m.absorb x) :=
-  ⟨absorb_uniform e m x hm.1 hx.1, absorb_wf m x hm.2⟩
 
 theorem absorb_base (e : ℕ) (m x : RateTotal) (hm : RInv e m) (hx : RInv e x) :
     (m.absorb x).base.value = m.base.value + x.base.value := by
@@ -283,19 +276,14 @@ theorem absorb_amount (e : ℕ) (m x : RateTotal) (hm : RInv e m) (hx : RInv e x
   simp only
   rw [add_same_exp _ _ (by omega)]
 
-theorem absorb_surcharge (e : ℕ) (m x : RateTotal) (hm : RInvW e m) (hx : RInvW e x)
-    (hg : sameGroup m x = true) :
+/-- the surcharge of the absorbing row is the sum of the two rows' surcharges
+    (absent = 0), whichever side carries one — no condition on the rows' shape -/
+theorem absorb_surcharge (e : ℕ) (m x : RateTotal) (hm : RInv e m) (hx : RInv e x) :
     surchargeValue (m.absorb x) = surchargeValue m + surchargeValue x := by
-  obtain ⟨hmu, hmw⟩ := hm
-  obtain ⟨hxu, hxw⟩ := hx
-  have m3 := ((uniformRate_iff e m).mp hmu).2.2
-  have x3 := ((uniformRate_iff e x).mp hxu).2.2
-  unfold sameGroup samePercent sameSurchargePercent at hg
-  unfold wellFormedRate at hmw hxw
+  have m3 := ((uniformRate_iff e m).mp hm).2.2
+  have x3 := ((uniformRate_iff e x).mp hx).2.2
   unfold surchargeValue RateTotal.absorb
-  rcases hmp : m.percent with _ | mp <;> rcases hxp : x.percent with _ | xp <;>
-    rcases hms : m.surcharge with _ | ms <;> rcases hxs : x.surcharge with _ | xs <;>
-    simp_all
+  rcases hms : m.surcharge with _ | ms <;> rcases hxs : x.surcharge with _ | xs <;> simp_all
   rw [add_same_exp _ _ (by omega)]
 
 /-! ### rate groups of one category -/
@@ -307,22 +295,9 @@ theorem rates_figure (e : ℕ) (f : RateTotal → ℤ) (k : RateTotal)
   rw [mergeRates_eq]
   apply wsum_foldl_mergeOne RateTotal.matches RateTotal.absorb (RInv e) (sameGroup k) f
   · intro m x hm hx _; exact absorb_uniform e m x hm hx
-  · intro m x _ _ _; exact sameGroup_absorb k m x
+  · intro m x _ _ he; rw [matches_eq_sameGroup] at he; exact sameGroup_absorb k m x he
   · intro m x _ _ he; rw [matches_eq_sameGroup] at he; exact sameGroup_congr_right k m x he
   · intro m x hm hx _ _; exact hf m x hm hx
-  · exact hrs
-  · exact hrts
-
-theorem rates_surcharge (e : ℕ) (k : RateTotal)
-    (rs rts : List RateTotal) (hrs : ∀ r ∈ rs, RInvW e r) (hrts : ∀ r ∈ rts, RInvW e r) :
-    wsum (sameGroup k) surchargeValue (mergeRates rs rts) =
-      wsum (sameGroup k) surchargeValue rs + wsum (sameGroup k) surchargeValue rts := by
-  rw [mergeRates_eq]
-  apply wsum_foldl_mergeOne RateTotal.matches RateTotal.absorb (RInvW e) (sameGroup k) surchargeValue
-  · intro m x hm hx _; exact absorb_invW e m x hm hx
-  · intro m x _ _ _; exact sameGroup_absorb k m x
-  · intro m x _ _ he; rw [matches_eq_sameGroup] at he; exact sameGroup_congr_right k m x he
-  · intro m x hm hx he _; rw [matches_eq_sameGroup] at he; exact absorb_surcharge e m x hm hx he
   · exact hrs
   · exact hrts
 
@@ -331,15 +306,9 @@ theorem rates_inv (e : ℕ) (rs rts : List RateTotal) (hrs : ∀ r ∈ rs, RInv 
   rw [mergeRates_eq]
   exact inv_foldl_mergeOne _ _ (RInv e) (fun m x hm hx _ => absorb_uniform e m x hm hx) rs rts hrs hrts
 
-theorem rates_invW (e : ℕ) (rs rts : List RateTotal) (hrs : ∀ r ∈ rs, RInvW e r) (hrts : ∀ r ∈ rts, RInvW e r) :
-    ∀ r ∈ mergeRates rs rts, RInvW e r := by
-  rw [mergeRates_eq]
-  exact inv_foldl_mergeOne _ _ (RInvW e) (fun m x hm hx _ => absorb_invW e m x hm hx) rs rts hrs hrts
-
 /-! ### categories -/
 
 def CInv (e : ℕ) (c : CategoryTotal) : Prop := uniformCategory e c = true
-def CInvW (e : ℕ) (c : CategoryTotal) : Prop := uniformCategory e c = true ∧ c.rates.all wellFormedRate = true
 
 theorem uniformCategory_iff (e : ℕ) (c : CategoryTotal) :
     uniformCategory e c = true ↔
@@ -366,16 +335,6 @@ theorem cat_absorb_uniform (e : ℕ) (m c : CategoryTotal) (hm : CInv e m) (hc :
       · rw [hms] at hs; simp only [Option.some.injEq] at hs; subst hs
         simp [Amount.add, m2 ms hms]
   · exact rates_inv e m.rates c.rates m3 c3
-
-theorem cat_absorb_invW (e : ℕ) (m c : CategoryTotal) (hm : CInvW e m) (hc : CInvW e c) : CInvW e (m.absorb c) := by
-  refine ⟨cat_absorb_uniform e m c hm.1 hc.1, ?_⟩
-  have m3 := ((uniformCategory_iff e m).mp hm.1).2.2
-  have c3 := ((uniformCategory_iff e c).mp hc.1).2.2
-  have hmw := hm.2; have hcw := hc.2
-  rw [List.all_eq_true] at hmw hcw ⊢
-  have := rates_invW e m.rates c.rates (fun r hr => ⟨m3 r hr, hmw r hr⟩) (fun r hr => ⟨c3 r hr, hcw r hr⟩)
-  intro r hr
-  exact (this r hr).2
 
 theorem cat_absorb_amount (e : ℕ) (m c : CategoryTotal) (hm : CInv e m) (hc : CInv e c) :
     (m.absorb c).amount.value = m.amount.value + c.amount.value := by
@@ -430,7 +389,7 @@ theorem mergeOne_hit (pre : List α) (p : α) (ps : List α) (x : α)
     rw [ih (fun b hb => hpre b (by simp [hb]))]
 
 theorem foldl_mergeOne_self (neg : α → α)
-    (hA1 : ∀ m x y, eqv (absorb m x) y = eqv m y)
+    (hA1 : ∀ m x y, eqv m x = true → eqv (absorb m x) y = eqv m y)
     (hA2 : ∀ y b, eqv y (neg b) = eqv y b)
     (hrefl : ∀ p, eqv p p = true)
     (pre post : List α)
@@ -453,7 +412,7 @@ theorem foldl_mergeOne_self (neg : α → α)
         simp only [List.mem_append, List.mem_singleton] at ha
         rcases ha with ha | rfl
         · exact hpre a ha b (by simp [hb])
-        · rw [hA1]; exact hpost.1 b hb)
+        · rw [hA1 _ _ _ (by rw [hA2]; exact hrefl p)]; exact hpost.1 b hb)
       hpost.2
     simp only [List.append_assoc, List.singleton_append] at this
     exact this
@@ -472,7 +431,7 @@ theorem rates_self_negate (rs : List RateTotal) (h : pairwiseNot sameGroup rs = 
     funext a b; exact matches_eq_sameGroup a b
   rw [hfun]
   have := foldl_mergeOne_self sameGroup RateTotal.absorb RateTotal.negate
-    (fun m x y => by rw [sameGroup_symm, sameGroup_absorb, sameGroup_symm])
+    (fun m x y he => by rw [sameGroup_symm, sameGroup_absorb _ _ _ he, sameGroup_symm])
     sameGroup_negate sameGroup_refl [] rs (by simp) h
   simpa using this
 
@@ -481,7 +440,7 @@ theorem categories_self_negate (cs : List CategoryTotal)
     mergeCategories cs (cs.map CategoryTotal.negate) = cs.map (fun c => c.absorb c.negate) := by
   rw [mergeCategories_eq]
   have := foldl_mergeOne_self (fun (a b : CategoryTotal) => a.code == b.code) CategoryTotal.absorb CategoryTotal.negate
-    (fun m x y => rfl) (fun y b => rfl) (fun p => by simp) [] cs (by simp) h
+    (fun m x y _ => rfl) (fun y b => rfl) (fun p => by simp) [] cs (by simp) h
   simpa using this
 
 theorem add_negate_zero (a : Amount) : (a.add a.negate).value = 0 := by
@@ -495,79 +454,6 @@ theorem rate_absorb_negate_zero (r : RateTotal) : rateZero (r.absorb r.negate) =
   · simp
   · simp [add_negate_zero]
 
-/-! ### well-formed summaries never hit the nil dereference of `Merge` -/
-
-def WF (r : RateTotal) : Prop := wellFormedRate r = true
-
-theorem absorbPanics_false (m x : RateTotal) (hm : WF m) (hx : WF x) (h : m.matches x = true) :
-    m.absorbPanics x = false := by
-  rw [matches_eq_sameGroup] at h
-  unfold WF wellFormedRate at hm hx
-  unfold sameGroup samePercent sameSurchargePercent at h
-  unfold RateTotal.absorbPanics
-  rcases hmp : m.percent with _ | mp <;> rcases hxp : x.percent with _ | xp <;>
-    rcases hms : m.surcharge with _ | ms <;> rcases hxs : x.surcharge with _ | xs <;> simp_all
-
-theorem mergeRatePanics_false (rs : List RateTotal) (rt : RateTotal)
-    (hrs : ∀ r ∈ rs, WF r) (hrt : WF rt) : mergeRatePanics rs rt = false := by
-  induction rs with
-  | nil => rfl
-  | cons m rest ih =>
-    unfold mergeRatePanics
-    cases he : m.matches rt with
-    | true => simp only [if_true]; exact absorbPanics_false m rt (hrs m (by simp)) hrt he
-    | false => simp only [Bool.false_eq_true, if_false]; exact ih (fun r hr => hrs r (by simp [hr]))
-
-theorem mergeRate_wf (rs : List RateTotal) (rt : RateTotal) (hrs : ∀ r ∈ rs, WF r) (hrt : WF rt) :
-    ∀ r ∈ mergeRate rs rt, WF r := by
-  rw [mergeRate_eq]
-  exact inv_mergeOne _ _ WF (fun m x hm _ _ => absorb_wf m x hm) rs rt hrs hrt
-
-theorem mergeRates_wf (rs rts : List RateTotal) (hrs : ∀ r ∈ rs, WF r) (hrts : ∀ r ∈ rts, WF r) :
-    ∀ r ∈ mergeRates rs rts, WF r := by
-  rw [mergeRates_eq]
-  exact inv_foldl_mergeOne _ _ WF (fun m x hm _ _ => absorb_wf m x hm) rs rts hrs hrts
-
-theorem mergeRatesPanics_false (rs rts : List RateTotal)
-    (hrs : ∀ r ∈ rs, WF r) (hrts : ∀ r ∈ rts, WF r) : mergeRatesPanics rs rts = false := by
-  induction rts generalizing rs with
-  | nil => cases rs <;> rfl
-  | cons rt more ih =>
-    unfold mergeRatesPanics
-    rw [mergeRatePanics_false rs rt hrs (hrts rt (by simp)), Bool.false_or]
-    exact ih _ (mergeRate_wf rs rt hrs (hrts rt (by simp))) (fun r hr => hrts r (by simp [hr]))
-
-def CWF (c : CategoryTotal) : Prop := ∀ r ∈ c.rates, WF r
-
-theorem mergeCategoryPanics_false (cs : List CategoryTotal) (ct : CategoryTotal)
-    (hcs : ∀ c ∈ cs, CWF c) (hct : CWF ct) : mergeCategoryPanics cs ct = false := by
-  induction cs with
-  | nil => rfl
-  | cons m rest ih =>
-    unfold mergeCategoryPanics
-    cases he : (m.code == ct.code) with
-    | true => simp only [if_true]; exact mergeRatesPanics_false m.rates ct.rates (hcs m (by simp)) hct
-    | false => simp only [Bool.false_eq_true, if_false]; exact ih (fun c hc => hcs c (by simp [hc]))
-
-theorem mergeCategory_wf (cs : List CategoryTotal) (ct : CategoryTotal)
-    (hcs : ∀ c ∈ cs, CWF c) (hct : CWF ct) : ∀ c ∈ mergeCategory cs ct, CWF c := by
-  rw [mergeCategory_eq]
-  exact inv_mergeOne (fun (m c : CategoryTotal) => m.code == c.code) CategoryTotal.absorb CWF
-    (fun m x hm hx _ => mergeRates_wf m.rates x.rates hm hx) cs ct hcs hct
-
-theorem mergeCategoriesPanics_false (cs cts : List CategoryTotal)
-    (hcs : ∀ c ∈ cs, CWF c) (hcts : ∀ c ∈ cts, CWF c) : mergeCategoriesPanics cs cts = false := by
-  induction cts generalizing cs with
-  | nil => cases cs <;> rfl
-  | cons ct more ih =>
-    unfold mergeCategoriesPanics
-    rw [mergeCategoryPanics_false cs ct hcs (hcts ct (by simp)), Bool.false_or]
-    exact ih _ (mergeCategory_wf cs ct hcs (hcts ct (by simp))) (fun c hc => hcts c (by simp [hc]))
-
-theorem negate_wf (r : RateTotal) (h : WF r) : WF r.negate := by
-  unfold WF wellFormedRate RateTotal.negate at *
-  rcases hp : r.percent with _ | p <;> rcases hs : r.surcharge with _ | s <;> simp_all
-
 /-! ### no duplicates are created -/
 
 section nodup
@@ -578,8 +464,8 @@ theorem pairwiseNot_cons (x : α) (xs : List α) :
   rw [pairwiseNot]; simp
 
 theorem pairwiseNot_mergeOne
-    (hL : ∀ m x y, eqv (absorb m x) y = eqv m y)
-    (hR : ∀ a m x, eqv a (absorb m x) = eqv a m)
+    (hL : ∀ m x y, eqv m x = true → eqv (absorb m x) y = eqv m y)
+    (hR : ∀ a m x, eqv m x = true → eqv a (absorb m x) = eqv a m)
     (xs : List α) (x : α) (h : pairwiseNot eqv xs = true) :
     pairwiseNot eqv (mergeOne eqv absorb xs x) = true ∧
       ∀ a, (∀ y ∈ xs, eqv a y = false) → eqv a x = false → ∀ y ∈ mergeOne eqv absorb xs x, eqv a y = false := by
@@ -597,11 +483,11 @@ theorem pairwiseNot_mergeOne
       simp only [if_true]
       refine ⟨?_, ?_⟩
       · rw [pairwiseNot_cons]
-        exact ⟨fun y hy => by rw [hL]; exact hm y hy, hrest⟩
+        exact ⟨fun y hy => by rw [hL _ _ _ he]; exact hm y hy, hrest⟩
       · intro a ha _ y hy
         simp only [List.mem_cons] at hy
         rcases hy with rfl | hy
-        · rw [hR]; exact ha m (by simp)
+        · rw [hR _ _ _ he]; exact ha m (by simp)
         · exact ha y (by simp [hy])
     | false =>
       simp only [Bool.false_eq_true, if_false]
@@ -615,8 +501,8 @@ theorem pairwiseNot_mergeOne
         · exact ih2 a (fun z hz => ha z (by simp [hz])) hax y hy
 
 theorem pairwiseNot_foldl
-    (hL : ∀ m x y, eqv (absorb m x) y = eqv m y)
-    (hR : ∀ a m x, eqv a (absorb m x) = eqv a m)
+    (hL : ∀ m x y, eqv m x = true → eqv (absorb m x) y = eqv m y)
+    (hR : ∀ a m x, eqv m x = true → eqv a (absorb m x) = eqv a m)
     (xs ys : List α) (h : pairwiseNot eqv xs = true) :
     pairwiseNot eqv (ys.foldl (mergeOne eqv absorb) xs) = true := by
   induction ys generalizing xs with
@@ -634,8 +520,8 @@ theorem mergeRates_nodup (rs rts : List RateTotal) (h : pairwiseNot sameGroup rs
     funext a b; exact matches_eq_sameGroup a b
   rw [hfun]
   exact pairwiseNot_foldl sameGroup RateTotal.absorb
-    (fun m x y => by rw [sameGroup_symm, sameGroup_absorb, sameGroup_symm])
-    (fun a m x => sameGroup_absorb a m x) rs rts h
+    (fun m x y he => by rw [sameGroup_symm, sameGroup_absorb _ _ _ he, sameGroup_symm])
+    (fun a m x he => sameGroup_absorb a m x he) rs rts h
 
 def CND (c : CategoryTotal) : Prop := pairwiseNot sameGroup c.rates = true
 
@@ -646,7 +532,7 @@ theorem mergeCategories_nodup (cs cts : List CategoryTotal)
       ∀ c ∈ mergeCategories cs cts, CND c := by
   rw [mergeCategories_eq]
   refine ⟨pairwiseNot_foldl (fun (a b : CategoryTotal) => a.code == b.code) CategoryTotal.absorb
-    (fun m x y => rfl) (fun a m x => rfl) cs cts h, ?_⟩
+    (fun m x y _ => rfl) (fun a m x _ => rfl) cs cts h, ?_⟩
   exact inv_foldl_mergeOne (fun (m c : CategoryTotal) => m.code == c.code) CategoryTotal.absorb CND
     (fun m x hm _ _ => mergeRates_nodup m.rates x.rates hm) cs cts hcs hcts
 
